@@ -40,7 +40,7 @@ def cases(ctx):
     return eg.engine_cases(max_jobs=ctx.pick(5, 7), tokens=2, tok_pct=85, up_pct=25, fail_pct=25, dups=True, dup_pct=5, wait_pct=10, done_pct=2, adopt_pct=0, dup_tok_pct=4)
 
 
-PARTS = [Part("engine", prop, strategy=cases, quick=6400, thorough=160000, shrink_budget=40)]
+PARTS = [Part("engine", prop, strategy=cases, quick=6400, thorough=64000, shrink_budget=40)]
 # --- several real schedulers on one token directory --------------------------------------------
 
 
